@@ -694,4 +694,11 @@ def run_prop(ctx, prop, budget, weights, n_quick):
 
 def replay_prop(ctx, prop, body):
     ctx.cov["rule"] = RULE
-    run_cases(ctx, prop, [body["case"]], shrink=False)
+    if "case" in body:
+        cases = [body["case"]]
+    else:  # a `no-failing-input-found` replay: re-run the inputs on which the mirror relation diverged
+        cases = [t["detail"]["case"] for t in body.get("trace_divergences", []) if "case" in t.get("detail", {})]
+    run_cases(ctx, prop, cases, shrink=False)
+    if "case" not in body and ctx.trace_div and not ctx.violations:
+        ctx.fail(FN, "no_failing_input", "R_trace still diverges on the recorded input(s)",
+                 {"trace_divergences": ctx.trace_div[:5]}, no_input=True)
